@@ -106,6 +106,24 @@ Definition user_claims (userinfo : list (pystr * pyval)) (r : restriction) : lis
                            | None => []
                            end) r.
 
+(* ---- the token's own scope vs. the scope of the grant it belongs to ----
+   Every release point calls ClaimsInterface.get_claims(session_id, scopes=<scope of the token that is presented or
+   minted>, point): UserInfo.process_request and Introspection.process_request hand in token.scope, Grant.mint_token ->
+   payload_arguments hands in the scope the new ID Token / JWT access token is minted with.  The grant's own scope (the
+   scope of its authorization request) is used by get_claims_from_request ONLY when the caller hands in None.  A token
+   minted by a refresh request with a narrower `scope`, by a refresh of such a refresh, or by a down-scoping token
+   exchange has a scope of its own that is a proper subset of the grant's. *)
+Definition effective_scopes (token_scope : option (list pystr)) (grant_scope : list pystr) : list pystr :=
+  match token_scope with Some s => s | None => grant_scope end.
+Definition get_claims_tok (provider_map : scope_map) (m : module_cfg) (cl : option client_cfg) (point secondary : pystr)
+           (token_scope : option (list pystr)) (grant_scope : list pystr) (request_claims : restriction) : restriction :=
+  get_claims provider_map m cl point secondary (effective_scopes token_scope grant_scope) request_claims.
+(* what a release point puts into its output for a token with that scope, belonging to a grant with that scope *)
+Definition release_tok (provider_map : scope_map) (m : module_cfg) (cl : option client_cfg) (point secondary : pystr)
+           (token_scope : option (list pystr)) (grant_scope : list pystr) (request_claims : restriction)
+           (userinfo : list (pystr * pyval)) : list (pystr * pyval) :=
+  user_claims userinfo (get_claims_tok provider_map m cl point secondary token_scope grant_scope request_claims).
+
 (* ---- checkers ---- *)
 Definition spec_item_eqb (a b : spec_item) : bool :=
   match a, b with
@@ -128,3 +146,29 @@ Definition chk_claims (c : claims_case) : bool :=
 Definition diag_claims (c : claims_case) :=
   let '(pm, m, cl, point, secondary, scopes, req, ui, exp_r, exp_rel) := c in
   let r := get_claims pm m cl point secondary scopes req in (r, user_claims ui r).
+
+(* the token-scope dimension: (a) unit level - get_claims_from_request called with a `scopes` argument that differs from the
+   scope of the authorization request (or with None); (b) end to end - the user attributes a real release point shows for a
+   token whose own scope is narrower than its grant's, compared as a set with release_tok *)
+Definition claims_tok_case :=
+  (scope_map * module_cfg * option client_cfg * pystr * pystr * option (list pystr) * list pystr * restriction
+   * list (pystr * pyval) * restriction * list (pystr * pyval))%type.
+Definition chk_claims_tok (c : claims_tok_case) : bool :=
+  let '(pm, m, cl, point, secondary, tscope, gscope, req, ui, exp_r, exp_rel) := c in
+  let r := get_claims_tok pm m cl point secondary tscope gscope req in
+  restriction_eqb r exp_r && released_eqb (user_claims ui r) exp_rel.
+Definition diag_claims_tok (c : claims_tok_case) :=
+  let '(pm, m, cl, point, secondary, tscope, gscope, req, ui, exp_r, exp_rel) := c in
+  let r := get_claims_tok pm m cl point secondary tscope gscope req in (r, user_claims ui r).
+Definition released_subset (a b : list (pystr * pyval)) : bool :=
+  forallb (fun x => existsb (fun y => str_eqb (fst x) (fst y) && pyval_eqb (snd x) (snd y)) b) a.
+Definition release_tok_case :=
+  (scope_map * module_cfg * option client_cfg * pystr * pystr * option (list pystr) * list pystr * restriction
+   * list (pystr * pyval) * list (pystr * pyval))%type.
+Definition chk_release_tok (c : release_tok_case) : bool :=
+  let '(pm, m, cl, point, secondary, tscope, gscope, req, ui, exp_rel) := c in
+  let rel := release_tok pm m cl point secondary tscope gscope req ui in
+  released_subset rel exp_rel && released_subset exp_rel rel.
+Definition diag_release_tok (c : release_tok_case) :=
+  let '(pm, m, cl, point, secondary, tscope, gscope, req, ui, exp_rel) := c in
+  release_tok pm m cl point secondary tscope gscope req ui.
